@@ -404,7 +404,7 @@ async def drive_ap2_deep(history, encrypted=False):
     return trace
 
 
-async def drive_mrp_deep(history, drop=None):
+async def drive_mrp_deep(history, drop=None, encrypted=False):
     """MrpProtocol.enable_heartbeat on top of the REAL MrpConnection with a device listener: after
     the fatal run the device listener must be told exactly once that the connection is gone.
     drop = "inflight" / "sleeping": after the history the DEVICE drops the TCP connection (the
@@ -432,7 +432,15 @@ async def drive_mrp_deep(history, drop=None):
             reports.append("closed")
 
     listener = L()
-    sp = StateProducer(max_calls=1)
+
+    class Device(StateProducer):
+        """Stands in for FacadeAppleTV as device listener: the first report makes it tear every
+        protocol down, and a protocol that is torn down (DMAP does) reports connection_closed from
+        inside that hook - which must not reach the user's listener as a second notification."""
+
+        def state_was_updated(self):
+            self.listener.connection_closed()
+    sp = Device(max_calls=1)
     sp.listener = listener
     conn = MrpConnection("127.0.0.1", 1, loop, atv=sp)
 
@@ -453,6 +461,16 @@ async def drive_mrp_deep(history, drop=None):
     tr = Tr()
     conn._transport = tr
     proto = MrpProtocol(conn, SRPAuthHandler(), MutableService("id", Protocol.MRP, 0, {}), InfoSettings())
+    dev = None
+    if encrypted:
+        # an encrypted MRP session (after pair-verify); the device side is an independent cipher with the
+        # mirrored keys.  History letter x: the device's answer is preceded by a frame that was damaged
+        # on the way (fails authentication and is dropped) - the session must go on
+        from pyatv.support.chacha20 import Chacha20Cipher8byteNonce
+        from pyatv.support.variant import write_variant
+        k1, k2 = bytes(range(32)), bytes(range(32, 64))
+        conn.enable_encryption(k1, k2)
+        dev = Chacha20Cipher8byteNonce(k2, k1)
     proto._state = ProtocolState.READY
     # attempts are counted where the keep-alive loop hands its message over (an attempt on a dead
     # connection never reaches the transport) and close() calls where the failure path ends
@@ -482,13 +500,24 @@ async def drive_mrp_deep(history, drop=None):
         raw = sent[seen]
         seen += 1
         trace.append("Send")
-        if ev == "O":
-            length, body = read_variant(raw)
+        length, body = read_variant(raw)
+        body = body[:length]
+        if dev is not None:
+            body = dev.decrypt(body)       # the device receives every frame, also those it does not answer
+        if ev in "Ox":
             msg = protobuf.ProtocolMessage()
-            msg.ParseFromString(body[:length])
+            msg.ParseFromString(body)
             resp = messages.create(protobuf.GENERIC_MESSAGE)
             resp.identifier = msg.identifier
-            proto.message_received(resp, None)
+            if dev is None:
+                proto.message_received(resp, None)
+            else:
+                if ev == "x":
+                    junk = bytearray(dev.encrypt(messages.create(protobuf.GENERIC_MESSAGE).SerializeToString()))
+                    junk[len(junk) // 2] ^= 0x40
+                    conn.data_received(write_variant(len(junk)) + bytes(junk))
+                enc = dev.encrypt(resp.SerializeToString())
+                conn.data_received(write_variant(len(enc)) + enc)
             await asyncio.sleep(0)
         else:
             await asyncio.sleep(5.5)
@@ -574,13 +603,15 @@ def callsites(ctx, cases_mrp, cases_ap2):
                                   {"site": "ap2-deep", "device": hist, "encrypted": enc, "impl_trace": trace})
                 cases_mrp.append((r, mh, core, "Failure" in trace))
     for n in range(1, maxlen):
-        for hist in itertools.product("OF", repeat=n):
-            hist = "".join(hist)
-            if model_py(r, hist[:-1]):
+      for enc in (False, True):
+        for hist0 in itertools.product("OF" if not enc else "OxF", repeat=n):
+            hist0 = "".join(hist0)
+            hist = hist0.replace("x", "O")
+            if model_py(r, hist[:-1]) or (enc and "x" not in hist0):
                 continue
-            trace, reports, closed = vloop.run(drive_mrp_deep, hist)
-            ctx.case(("mrp-deep", hist), nontrivial=True)
-            ctx.count("mrp-deep")
+            trace, reports, closed = vloop.run(drive_mrp_deep, hist0, None, enc)
+            ctx.case(("mrp-deep", hist0, enc), nontrivial=True)
+            ctx.count("mrp-deep" + ("-encrypted" if enc else ""))
             errs = [e for e in oracle(r, hist, [t for t in trace if t != "ActivityAfterFailure"], True) if e != "finish-not-once-on-cancel"]
             if "ActivityAfterFailure" in trace:
                 errs.append("activity-after-failure")
@@ -590,7 +621,7 @@ def callsites(ctx, cases_mrp, cases_ap2):
                 errs.append("device-listener-told-%d-times" % len(reports))
             for e in errs:
                 ctx.violation("C19:mrp-callsite:" + e, "MRP keep-alive over the real MrpConnection: " + e,
-                              {"site": "mrp-deep", "device": hist, "impl_trace": trace, "listener_reports": reports})
+                              {"site": "mrp-deep", "device": hist0, "encrypted": enc, "impl_trace": trace, "listener_reports": reports})
             cases_mrp.append((r, hist, [t for t in trace if t != "ActivityAfterFailure"], "Failure" in trace))
     # the device drops the connection while a keep-alive is outstanding / while the loop sleeps
     for n in range(0, maxlen - 1):
@@ -794,8 +825,8 @@ def replay(ctx, path):
         trace = vloop.run(drive_ap2_deep, rp["device"], bool(rp.get("encrypted")))
         hist = rp["device"].replace("E", "F").replace("o", "O")
     elif site == "mrp-deep":
-        trace, reports, closed = vloop.run(drive_mrp_deep, rp["device"])
-        hist = rp["device"]
+        trace, reports, closed = vloop.run(drive_mrp_deep, rp["device"], None, bool(rp.get("encrypted")))
+        hist = rp["device"].replace("x", "O")
         print("listener reports:", reports)
         if len(reports) != 1:
             return 1
